@@ -131,20 +131,30 @@ where
 
     /// Write back a block you read with [`Self::read_mut`] and then modified.
     pub fn write_back(&mut self) -> Result<(), D::Error> {
-        self.block_device.write(
+        let result = self.block_device.write(
             &self.block,
             self.block_idx.expect("write_back with no read"),
-        )
+        );
+        if result.is_err() {
+            // The device does not hold what we hold, so forget we have it
+            self.block_idx = None;
+        }
+        result
     }
 
     /// Write back a block you read with [`Self::read_mut`] and then modified, but to two locations.
     ///
     /// This is useful for updating two File Allocation Tables.
     pub fn write_back_with_duplicate(&mut self, duplicate: BlockIdx) -> Result<(), D::Error> {
-        self.block_device.write(
+        let result = self.block_device.write(
             &self.block,
             self.block_idx.expect("write_back with no read"),
-        )?;
+        );
+        if result.is_err() {
+            // The device does not hold what we hold, so forget we have it
+            self.block_idx = None;
+        }
+        result?;
         self.block_device.write(&self.block, duplicate)?;
         Ok(())
     }
